@@ -64,7 +64,7 @@ def _run(db, ctx):
                 if ce is None:
                     continue
                 cn = norm(ce)
-                if cn[0] == 'bin' and cn[1] == 'Ge' and cn[2][0] == 'fld' and cn[2][2] == 'score' and 'threshold' in (c.raw.get('upvars') and c.raw['upvars'][0]['name'] or ''):
+                if cn[0] == 'bin' and cn[1] in ('Ge', 'FGe') and cn[2][0] == 'fld' and cn[2][2] == 'score' and 'threshold' in (c.raw.get('upvars') and c.raw['upvars'][0]['name'] or ''):
                     ok_seed = True
     if ok_seed:
         ctx.ok('R3.3', f, 'best seeded from take(self.hits) filtered by hit.score >= self.threshold')
@@ -95,11 +95,11 @@ def _run(db, ctx):
                         if r[0] == 'true':
                             e_ = r[1]
                         else:
-                            e_ = ('bin', {'gt': 'Gt', 'ge': 'Ge', 'lt': 'Lt', 'le': 'Le', 'eq': 'Eq'}[r[0]], r[1], r[2])
+                            e_ = ('bin', {'gt': 'FGt', 'ge': 'FGe', 'lt': 'FLt', 'le': 'FLe', 'eq': 'Eq'}[r[0]], r[1], r[2])
                         for x in X.walk(e_):
-                            if x[0] == 'bin' and x[1] in ('Gt', 'Ge') and 'score_position' in X.canon(x[2]) and X.canon(x[3]).endswith('.score'):
+                            if x[0] == 'bin' and x[1] in ('Gt', 'Ge', 'FGt', 'FGe') and 'score_position' in X.canon(x[2]) and X.canon(x[3]).endswith('.score'):
                                 return True
-                            if x[0] == 'bin' and x[1] in ('Lt', 'Le') and 'score_position' in X.canon(x[3]) and X.canon(x[2]).endswith('.score'):
+                            if x[0] == 'bin' and x[1] in ('Lt', 'Le', 'FLt', 'FLe') and 'score_position' in X.canon(x[3]) and X.canon(x[2]).endswith('.score'):
                                 return True
                             if allow_eq and x[0] == 'bin' and x[1] == 'Eq' and {('score_position' in X.canon(x[2])), X.canon(x[3]).endswith('.score')} == {True} :
                                 return True
